@@ -84,7 +84,7 @@ def c02_3(cx):
     cx.sites(dur_stores, 1, "store of the new durability")
     for s in dur_stores:
         cx.check(not b.reaches(s, rep), "durability is overwritten only after the old one was reported", s, {"store": repr(s), "report": repr(rep)}, key="old-before-new")
-        v = b._origin_def(None, "assign", s.node(), 0, None, ())
+        v = b._origin_def(s, "assign", s.node(), 0, None, ())
         cx.flow(b, v, accept=[r"^std::option::Option::<T>::unwrap_or\(\$5, .*\.durabilities\[\$4\]\)$"], refute=[r"^const:", r"Durability::(MIN|LOW|MAX)"],
                 what="new durability = durability.unwrap_or(old)", site=s)
     # skipped only if old == MIN: every path from entry to the setter that avoids the report passes an (old == MIN) edge
@@ -97,7 +97,7 @@ def c02_3(cx):
     rev_stores = [s for s in stores if re.search(r"\.revisions\[\$4\]$", b.origin_place(s.node()["p"]))]
     cx.sites(rev_stores, 1, "store of revisions[field_index]")
     for s in rev_stores:
-        v = b._origin_def(None, "assign", s.node(), 0, None, ())
+        v = b._origin_def(s, "assign", s.node(), 0, None, ())
         cx.flow(b, v, accept=[r"^runtime::Runtime::current_revision\(\$2\)$"], refute=[r"^const:", r"Revision::start", r"last_changed"], what="revisions[field_index] := current revision", site=s)
     other = [s for s in stores if s not in dur_stores and s not in rev_stores]
     cx.check(not other, "set_field stores only to revisions[field_index] and durabilities[field_index]", other[0] if other else None,
@@ -123,7 +123,7 @@ def c02_5(cx):
         for fld, (acc, ref) in want.items():
             if pl == "$1." + fld:
                 seen.add(fld)
-                cx.flow(b, b._origin_def(None, "assign", s.node(), 0, None, ()), acc, ref, "add_untracked_read sets %s" % fld, s)
+                cx.flow(b, b._origin_def(s, "assign", s.node(), 0, None, ()), acc, ref, "add_untracked_read sets %s" % fld, s)
     for fld in want:
         cx.check(fld in seen, "add_untracked_read stores self.%s" % fld, body=b, key="stores " + fld)
 
@@ -146,7 +146,7 @@ def c02_7(cx):
     cx.sites(st, 1, "store to revisions in new_revision")
     for s in st:
         cx.flow(nr, nr.origin_place(s.node()["p"]), [r"^\$1\.revisions\[const:0\]$"], [r"^\$1\.revisions\[const:[1-9]"], "new_revision bumps slot 0", s)
-        cx.flow(nr, nr._origin_def(None, "assign", s.node(), 0, None, ()), [r"^revision::Revision::next\(runtime::Runtime::current_revision\(\$1\)\)$", r"^revision::Revision::next\(\$1\.revisions\[const:0\]\)$"],
+        cx.flow(nr, nr._origin_def(s, "assign", s.node(), 0, None, ()), [r"^revision::Revision::next\(runtime::Runtime::current_revision\(\$1\)\)$", r"^revision::Revision::next\(\$1\.revisions\[const:0\]\)$"],
                 [r"^runtime::Runtime::current_revision\(\$1\)$", r"^const:"], "new revision = old.next()", s)
 
 
